@@ -77,6 +77,18 @@ CHECKS = {
     note="Trusted: TLC; the harness's run-length compression of real evaluations. 32-bit TLC integers bound positions below 2^29 + lengths < 2^31.",
     technique="TLA+ specification of the coordinate/bin arithmetic, TLC lemmas on small geometries + TLC trace validation of real function results (run-length exhaustive)",
     engine="Coord"),
+ "C04": dict(
+    category="model_checking", design_ref="DESIGN.md §5 C04, §4.4, App. A.4",
+    text="IndexP keeps only the added records and judges every answer by brute force (every overlapping record covered by a returned chunk; an error or empty answer only if nothing overlaps; Add of sorted in-range input never fails). IndexI models internal.Index's bins, chunk extension rule, linear-index growth and Chunks' tile pruning; TLC checks IndexI against IndexP for every sorted record sequence and every query on a tiny geometry. Real bam.Index / tabix.Index / csi.Index runs (edge cases, seeded sorted sets biased to tile/level edges, reference-id gaps, placed-unmapped and unplaced records, five CSI geometries, real BAM LastChunk layouts with bam.Iterator over the answers) are validated by TLC in memory, after write+read and after MergeChunks.",
+    note="Trusted: TLC; the harness's record/query generator obeys the sort precondition (re-checked by the spec). The real bin functions are tied to Bins.tla by C16.",
+    technique="TLA+ P-spec/I-spec, TLC exhaustive small geometry + TLC trace validation of real index runs",
+    engine="BinIndex"),
+ "C15": dict(
+    category="model_checking", design_ref="DESIGN.md §5 C15",
+    text="On the same traces as C04, IndexTrace requires write->read->write byte identity and equal header fields (CSI version/aux; tabix format, columns, meta, skip, names), identical and complete answers to every query before and after the round trip, and statistics (reference count, per-reference mapped/unmapped counts and chunk span, unplaced count) equal to the true counts of the added records, before and after.",
+    note="As C04. Stored third-party index files are not replayed (the harness generates its own).",
+    technique="TLA+ P-spec trace validation by TLC of write/read round trips of real indexes",
+    engine="BinIndex"),
 }
 NA_REASON = "check not built yet in this round (specification work in progress; see DESIGN.md §10 build order)"
 
@@ -109,6 +121,7 @@ def main():
 
 HOOK_COMMITS = ["4b6c86a", "f712ea4", "5dd3b6c", "b7bc5fc"]
 ENGINES = [
+ dict(name="BinIndex", path="spec/BinIndex", serves_properties=["C04", "C15"], kind_free_text="TLA+ IndexP/IndexI + TLC MC + trace validation"),
  dict(name="Coord", path="spec/Coord", serves_properties=["C16", "C04"], kind_free_text="TLA+ Cigar/Bins + TLC lemmas + trace validation"),
  dict(name="BgzfReader", path="spec/BgzfReader", serves_properties=["C01", "C02", "C03", "C09", "C10", "C13"], kind_free_text="TLA+ ReaderP/ReaderI + TLC MC + API trace validation"),
  dict(name="BgzfWriter", path="spec/BgzfWriter", serves_properties=["C01", "C08", "C09", "C12"], kind_free_text="TLA+ WriterP/WriterI/WriterPlan + TLC MC + API trace validation"),
